@@ -276,6 +276,18 @@ def judge_select(c, rec):
     df = synth.daily_frame(n=c["n"], tz=c["tz"], start_day=c["start_day"], noise_seed=c["seed"], usage=c["usage"],
                            noise=c["noise"], weekend_shift=c["weekend_shift"], season_shift=c["season_shift"],
                            weather={"south": c["south"]}, additive=c.get("additive", 1.0))
+    if c.get("cells"):
+        # usage that differs by calendar cell: additive offsets for (months, day type) and a mild climate, so that a short season
+        # (a one-month winter under the case's season map) is worth a component of its own
+        doy = df.index.dayofyear.values
+        rng = np.random.default_rng(c["seed"])
+        T = 58 - 9 * np.cos(2 * np.pi * (doy - 15) / 365.0) * (-1 if c["south"] else 1) + rng.normal(0, 7, len(df))
+        y = 30 + 1.2 * np.clip(60 - T, 0, None) + 1.5 * np.clip(T - 70, 0, None)
+        we = df.index.dayofweek.values >= 5
+        for months, daytype, off in c["cells"]:
+            sel = np.isin(df.index.month.values, months) & (we if daytype == "we" else ~we if daytype == "wd" else True)
+            y = y + np.where(sel, off, 0.0)
+        df = pd.DataFrame({"temperature": T, "observed": y + rng.normal(0, 1.0, len(df))}, index=df.index)
     prof = c["profile"]
     if prof == "billing":
         # monthly bills: aggregate the daily series to ~30-day reads
@@ -293,6 +305,8 @@ def judge_select(c, rec):
         elif prof == "legacy_dev":
             m = em.DailyModel(model="legacy", settings={"developer_mode": True, "silent_developer_mode": True,
                                                         "split_selection": dict(zip(FLAGS, c["flags"]), criteria=c["criteria"])})
+        elif c.get("season_settings"):
+            m = em.DailyModel(settings={"season": dict(c["season_settings"])})  # a season map is not a developer setting
         else:
             m = em.DailyModel()
     if c.get("prefit"):
@@ -367,6 +381,11 @@ def judge_select(c, rec):
             if len(want[i]) != 1 or got[i] != want[i][0]:
                 rec.violation(key + "/wrong-submodel", c, "%s predicted by %r, its cell belongs to %r" % (out.index[i].date(), got[i], want[i]))
                 break
+        should = np.isfinite(out["temperature"].values.astype(float)) & (np.isfinite(out["observed"].values.astype(float)) if "observed" in out else True)
+        if (should & ~fin).any():
+            i = int(np.nonzero(should & ~fin)[0][0])
+            rec.violation(key + "/day-without-submodel", c, "%s has temperature and usage but no prediction (its cell belongs to %r; stored sub-models %s)" % (
+                out.index[i].date(), want[i], sorted(doc["submodels"])))
     _SEEN.setdefault(json.dumps(c, sort_keys=True), (cands, best))
     first = _SEEN[json.dumps(c, sort_keys=True)]
     if (cands, best) != first:
@@ -516,6 +535,17 @@ def shards(tier, seed):
         exact.append(cse)
     out.append({"sub": "list", "cases": exact[:2]})
     out.append({"sub": "list", "cases": exact[2:]})
+    # short seasons: a one-month winter (only January) / a one-month summer (only July) under a custom season map, with weekends that
+    # behave differently in that month - the chosen split then has a component of about ten days
+    short = []
+    for j, (smap, months) in enumerate([({"february": "shoulder", "november": "shoulder", "december": "shoulder"}, [1]),
+                                        ({"june": "shoulder", "august": "shoulder", "september": "shoulder"}, [7])]):
+        short.append({"kind": "select", "profile": "current", "seed": 3000 + j + seed % 1000, "tz": "America/Chicago", "n": 365, "start_day": 0,
+                      "weekend_shift": 0.0, "season_shift": 0.0, "noise": 0.0, "usage": {"base": 30.0, "hs": 0.0, "hb": 50.0, "cs": 0.0, "cb": 70.0},
+                      "south": bool(j), "prefit": None, "season_settings": smap,
+                      "cells": [[list(range(1, 13)), "we", 25.0], [months, "we", 40.0], [months, "wd", 15.0]]})
+    for cse in short:
+        out.append({"sub": "list", "cases": [cse]})
     ch = candhist_cases(seed)
     for cse in (ch[:2] if q else ch):
         out.append({"sub": "list", "cases": [cse]})
